@@ -574,22 +574,13 @@ func (l *Lexer) skipWhitespace() {
 }
 
 func (l *Lexer) skipComment() {
-	for l.char != 0 {
-		if l.char != '-' || l.peekChar() != '-' {
-			l.readChar()
-			continue
-		}
-
-		l.readChar() // skip "-"
-		l.readChar() // skip "-"
-
-		if l.char == '}' || l.peekChar() == '}' {
-			break
-		}
+	for l.char != 0 && !strings.HasPrefix(l.input[l.pos:], "--}}") {
+		l.readChar()
 	}
 
 	l.isHTML = true
 
-	l.readChar() // skip "}"
-	l.readChar() // skip "}"
+	for i := 0; i < len("--}}") && l.char != 0; i++ {
+		l.readChar()
+	}
 }
